@@ -127,6 +127,24 @@ def zipRow (big small : DS) (bigIsLeft : Bool) (ms : List String) (body : SExpr)
 
 def renameOf (m : List (String × String)) (n : String) : String := (m.lookup n).getD n
 
+/-- `filter`: keep the row iff the condition is TRUE (false and null drop it). -/
+def filterRow (c : SExpr) (r : Row) : R (Option Row) :=
+  match evalS r .null .null c with
+  | .ok (.bool true) => .ok (some r)
+  | .ok (.bool false) => .ok none
+  | .ok .null => .ok none
+  | .ok _ => .error .type
+  | .error e => .error e
+
+/-- the named components computed by `calc`, all from the INPUT row (simultaneous assignment). -/
+def calcVals (items : List (String × SExpr)) (r : Row) : R (List (String × Value)) :=
+  items.mapM (fun it => (evalS r .null .null it.2).map (fun v => (it.1, v)))
+
+def calcRow (keep : List String) (items : List (String × SExpr)) (r : Row) : R (Option Row) :=
+  (calcVals items r).map (fun vs => some (r.proj keep ++ vs))
+
+def subMatch (fix : List (String × Value)) (r : Row) : Bool := fix.all (fun fv => r.get fv.1 == fv.2)
+
 def keyIn (ids : List String) (keys : List (List Value)) (r : Row) : Bool := keys.contains (r.key ids)
 
 def evalD (env : Env) : DExpr → R DS
@@ -150,20 +168,13 @@ def evalD (env : Env) : DExpr → R DS
       else .error .type
   | .filter d c => do
       let x ← evalD env d
-      let rows ← mapRows (fun r => do
-        match ← evalS r .null .null c with
-        | .bool true => pure (some r)
-        | .bool false => pure none
-        | .null => pure none
-        | _ => .error .type) x.rows
+      let rows ← mapRows (filterRow c) x.rows
       pure { x with rows }
   | .calc d items => do
       let x ← evalD env d
       let names := items.map (·.1)
       if names.any x.ids.contains then .error .type else
-      let rows ← mapRows (fun r => do
-        let vs ← items.mapM (fun it => do pure (it.1, ← evalS r .null .null it.2))
-        pure (some (r.proj (x.ids ++ x.meas.filter (fun m => !names.contains m)) ++ vs))) x.rows
+      let rows ← mapRows (calcRow (x.ids ++ x.meas.filter (fun m => !names.contains m)) items) x.rows
       pure { ids := x.ids, meas := x.meas.filter (fun m => !names.contains m) ++ names, rows }
   | .keep d ns => do
       let x ← evalD env d
@@ -182,7 +193,7 @@ def evalD (env : Env) : DExpr → R DS
       let fixed := fix.map (·.1)
       if !(subset fixed x.ids) then .error .type else
       let ids := x.ids.filter (fun i => !fixed.contains i)
-      let rows := x.rows.filter (fun r => fix.all (fun fv => r.get fv.1 == fv.2))
+      let rows := x.rows.filter (subMatch fix)
       pure { ids, meas := x.meas, rows := rows.map (·.proj (ids ++ x.meas)) }
   | .union a b => do
       let x ← evalD env a
